@@ -137,6 +137,7 @@ class Compiler:
         )  # bytecode_pos -> (line, column)
         self._current_loc: Optional[Tuple[int, int]] = None  # Current source location
         self._instantiated: set = set()  # ids of function declarations created on entry
+        self._completion_slot: Optional[int] = None  # see compile()
 
     def compile(self, node: Program) -> CompiledFunction:
         """Compile a program to bytecode."""
@@ -144,18 +145,15 @@ class Compiler:
         self._declare_program_vars(node)
         self._instantiate_functions(body)
 
-        # Compile all statements except the last one
-        for stmt in body[:-1] if body else []:
+        # The completion value of the script lives in a hidden slot of the
+        # program frame: every expression statement of the program (not of a
+        # function) stores into it, statements that complete with "empty"
+        # leave it alone, and if / loops / switch / try start from undefined
+        self._completion_slot = self._add_local("\x00completion")
+        for stmt in body:
             self._compile_statement(stmt)
-
-        # For the last statement, compile with completion value semantics
-        if body:
-            self._compile_statement_for_value(body[-1])
-            self._emit(OpCode.RETURN)
-        else:
-            # Empty program returns undefined
-            self._emit(OpCode.LOAD_UNDEFINED)
-            self._emit(OpCode.RETURN)
+        self._emit(OpCode.LOAD_LOCAL, self._completion_slot)
+        self._emit(OpCode.RETURN)
 
         return CompiledFunction(
             name="<program>",
@@ -260,7 +258,7 @@ class Compiler:
                     # The finally block runs as code of the place it is written
                     self.loop_stack = loops[: try_ctx.loop_depth]
                     self.try_stack = tries[:ti]
-                    self._compile_statement(try_ctx.finalizer)
+                    self._compile_finalizer(try_ctx.finalizer)
                     self.loop_stack, self.try_stack = loops, tries
                 ti -= 1
             elif li > target:
@@ -282,7 +280,7 @@ class Compiler:
             label="\x00pending exception", is_loop=False, stack_slots=1
         )
         self.loop_stack.append(pending)
-        self._compile_statement(finalizer)
+        self._compile_finalizer(finalizer)
         self.loop_stack.pop()
         self._emit(OpCode.THROW)  # Rethrow the exception
         try_ctx.finalizer = saved
@@ -298,6 +296,25 @@ class Compiler:
         """Add a name and return its index (stored in constants)."""
         # Store names in constants so VM can look them up
         return self._add_constant(name)
+
+    def _tracks_completion(self) -> bool:
+        return self._completion_slot is not None and not self._in_function
+
+    def _reset_completion(self) -> None:
+        """if, loops, switch and try complete with undefined unless a statement
+        inside them produces a value (UpdateEmpty(..., undefined))."""
+        if self._tracks_completion():
+            self._emit(OpCode.LOAD_UNDEFINED)
+            self._emit(OpCode.STORE_LOCAL, self._completion_slot)
+            self._emit(OpCode.POP)
+
+    def _compile_finalizer(self, finalizer) -> None:
+        """A finally block that completes normally does not change the
+        completion value of its try statement."""
+        saved = self._completion_slot
+        self._completion_slot = None
+        self._compile_statement(finalizer)
+        self._completion_slot = saved
 
     def _add_local(self, name: str) -> int:
         """Add a local variable and return its slot."""
@@ -502,6 +519,8 @@ class Compiler:
         """Compile a statement."""
         if isinstance(node, ExpressionStatement):
             self._compile_expression(node.expression)
+            if self._tracks_completion():
+                self._emit(OpCode.STORE_LOCAL, self._completion_slot)
             self._emit(OpCode.POP)
 
         elif isinstance(node, BlockStatement):
@@ -549,6 +568,7 @@ class Compiler:
                 self._emit(OpCode.POP)
 
         elif isinstance(node, IfStatement):
+            self._reset_completion()
             self._compile_expression(node.test)
             jump_false = self._emit_jump(OpCode.JUMP_IF_FALSE)
 
@@ -563,6 +583,7 @@ class Compiler:
                 self._patch_jump(jump_false)
 
         elif isinstance(node, WhileStatement):
+            self._reset_completion()
             loop_ctx = LoopContext()
             self.loop_stack.append(loop_ctx)
 
@@ -586,6 +607,7 @@ class Compiler:
             self.loop_stack.pop()
 
         elif isinstance(node, DoWhileStatement):
+            self._reset_completion()
             loop_ctx = LoopContext()
             self.loop_stack.append(loop_ctx)
 
@@ -607,6 +629,7 @@ class Compiler:
             self.loop_stack.pop()
 
         elif isinstance(node, ForStatement):
+            self._reset_completion()
             loop_ctx = LoopContext()
             self.loop_stack.append(loop_ctx)
 
@@ -649,6 +672,7 @@ class Compiler:
             self.loop_stack.pop()
 
         elif isinstance(node, ForInStatement):
+            self._reset_completion()
             loop_ctx = LoopContext(stack_slots=1)
             self.loop_stack.append(loop_ctx)
 
@@ -717,6 +741,7 @@ class Compiler:
             self.loop_stack.pop()
 
         elif isinstance(node, ForOfStatement):
+            self._reset_completion()
             loop_ctx = LoopContext(stack_slots=1)
             self.loop_stack.append(loop_ctx)
 
@@ -855,6 +880,7 @@ class Compiler:
             self._emit(OpCode.THROW)
 
         elif isinstance(node, TryStatement):
+            self._reset_completion()
             # Push TryContext so break/continue/return inside the statement
             # can end the handler and inline the finally code
             try_ctx = TryContext(
@@ -906,9 +932,10 @@ class Compiler:
             # Normal finally block (after try completes normally or after catch)
             self._patch_jump(jump_to_finally)
             if node.finalizer:
-                self._compile_statement(node.finalizer)
+                self._compile_finalizer(node.finalizer)
 
         elif isinstance(node, SwitchStatement):
+            self._reset_completion()
             for case in node.cases:
                 self._instantiate_functions(case.consequent)
             self._compile_expression(node.discriminant)
